@@ -7,10 +7,24 @@ make decide what is stale.  All scratch output lives under /verif/_build (git-ig
 import fcntl, hashlib, json, os, re, subprocess, sys, time, shutil
 
 VERIF = os.path.dirname(os.path.dirname(os.path.abspath(__file__)))
-REPO = os.environ.get("VERIF_REPO", "/repo")
-BUILD = os.path.join(VERIF, "_build")
-RB = os.path.join(BUILD, "repo")          # cmake build dir of /repo with -DBITCOIN_VERIF
-COQ = os.path.join(VERIF, "coq")
+# Mutation-test sandboxes (tools/mutate, development only): a private copy of /repo (git worktree),
+# its own build dir, its own copy of coq/ and its own evidence/replay dirs, so that a mutation test
+# never touches /repo, the shared Coq tree or the real evidence files.  Registered checks never set it.
+SANDBOX = os.environ.get("VERIF_SANDBOX")
+if SANDBOX:
+    REPO = os.path.join(SANDBOX, "repo")
+    BUILD = os.path.join(SANDBOX, "out")
+    RB = os.path.join(SANDBOX, "build")
+    COQ = os.path.join(SANDBOX, "coq")
+    OUT = SANDBOX
+    os.environ["CCACHE_BASEDIR"] = SANDBOX
+    os.environ["CCACHE_NOHASHDIR"] = "1"
+else:
+    REPO = "/repo"
+    BUILD = os.path.join(VERIF, "_build")
+    RB = os.path.join(BUILD, "repo")          # cmake build dir of /repo with -DBITCOIN_VERIF
+    COQ = os.path.join(VERIF, "coq")
+    OUT = VERIF
 GUARD = "BITCOIN_VERIF"
 NPROC = os.cpu_count() or 4
 
@@ -389,17 +403,17 @@ def known_findings():
 
 
 def write_evidence(pid, tier, seed, level, coverage, assumptions, wall, violations):
-    os.makedirs(os.path.join(VERIF, "evidence"), exist_ok=True)
+    os.makedirs(os.path.join(OUT, "evidence"), exist_ok=True)
     ev = dict(property_id=pid, tier=tier, seed=seed, level=level, coverage=coverage,
               assumptions=assumptions, wall_s=round(wall, 2), violations=violations)
-    tmp = os.path.join(VERIF, "evidence", pid + ".json.tmp")
+    tmp = os.path.join(OUT, "evidence", pid + ".json.tmp")
     json.dump(ev, open(tmp, "w"), indent=1, sort_keys=True)
-    os.replace(tmp, os.path.join(VERIF, "evidence", pid + ".json"))
+    os.replace(tmp, os.path.join(OUT, "evidence", pid + ".json"))
 
 
 def write_replay(pid, seed, n, obj):
-    os.makedirs(os.path.join(VERIF, "replay"), exist_ok=True)
-    p = os.path.join(VERIF, "replay", "%s-%s-%d.json" % (pid, seed, n))
+    os.makedirs(os.path.join(OUT, "replay"), exist_ok=True)
+    p = os.path.join(OUT, "replay", "%s-%s-%d.json" % (pid, seed, n))
     json.dump(obj, open(p, "w"), indent=1, sort_keys=True)
     return p
 
